@@ -256,6 +256,13 @@ func equalityProgram(rt *rapid.T, h *harness.H) *caseC07 {
 }
 
 func genC07(rt *rapid.T, h *harness.H) interface{} {
+	if rapid.IntRange(0, 99).Draw(rt, "operands") >= 92 {
+		c := operandMatrix(rt, h)
+		if c == nil {
+			return nil
+		}
+		return c
+	}
 	if rapid.IntRange(0, 99).Draw(rt, "matrix") >= 93 {
 		c := independenceMatrix(rt, h)
 		if c == nil {
